@@ -41,6 +41,10 @@ func newInitCommand() *cobra.Command {
 }
 
 func initImpl(namespace string) error {
+	if pascalCased := formatting.ToPascalCase(namespace); !packaging.IsValidNamespace(pascalCased) {
+		return fmt.Errorf("'%s' cannot be used as a package name: the resulting namespace '%s' must start with a letter and contain only letters and digits", namespace, pascalCased)
+	}
+
 	modelDir := "model"
 	if err := os.MkdirAll(modelDir, 0775); err != nil {
 		return err
